@@ -37,6 +37,8 @@ def call_batch_tasks(case):
         extra_ok = all(len(t) == 3 and t[2] == "x" for t in tasks)
     else:
         arr = np.arange(100, 100 + s + n)
+        if case.get("shuffle"):
+            arr = np.random.default_rng(case["shuffle"]).permutation(arr)
         tasks = batch_tasks(n, b, arr=arr, start_idx=s, args=("x",))
         tr.update(kind="arr", tasks=_norm_tasks_arr(tasks), arr=[int(x) for x in arr])
         extra_ok = all(len(t) == 3 and t[2] == "x" for t in tasks)
@@ -149,7 +151,7 @@ def run(ctx, selftest=False):
                             max(1, n - 1), max(1, n // 2), max(1, n // 2 + 1)])
         else:   # keep the number of tasks (and the trace) small for huge n
             b = rnd.choice([1, 2, 3, rnd.randint(1, 64), rnd.randint(1, 300), 7, 16])
-        cases.append({"id": "rnd-%d" % k, "n": n, "b": b, "s": s, "mode": mode})
+        cases.append({"id": "rnd-%d" % k, "n": n, "b": b, "s": s, "mode": mode, "shuffle": rnd.choice([0, k + 1])})
     traces = []
     same_as_alg = 0
     for c in cases:
